@@ -55,7 +55,6 @@ from typing import (
 from typing_extensions import Self  # In 3.11, import this from `typing`
 
 from mpservice import multiprocessing
-from mpservice._common import StopRequested
 from mpservice._queues import SingleLane
 from mpservice.concurrent.futures import (
     ProcessPoolExecutor,
@@ -951,7 +950,10 @@ class Buffer(Iterable):
                     break
                 q.put(x)  # if `q` is full, will wait here
             q.put(FINISHED)
-        except (Exception, StopRequested) as e:
+        except BaseException as e:
+            # Not only `Exception`: whatever ends this thread (e.g. `StopRequested`,
+            # `SystemExit`, a framework's cancellation class raised by the source)
+            # must reach the consumer, which is waiting on `q`.
             q.put(STOPPED)
             q.put(e)
             # raise
@@ -1065,7 +1067,9 @@ def fifo_stream(
                 q.put((x, fut))
                 # The size of the queue `q` regulates how many
                 # concurrent calls to `func` there can be.
-        except (Exception, StopRequested) as e:
+        except BaseException as e:
+            # Not only `Exception`: whatever ends this thread must reach the consumer,
+            # which is waiting on `q`.
             q.put(e)
         else:
             q.put(None)
@@ -1160,7 +1164,11 @@ async def async_fifo_stream(
                 await tasks.put((x, t))
                 # The size of the queue `tasks` regulates how many
                 # concurrent calls to `func` there can be.
-        except (Exception, StopRequested) as e:
+        except asyncio.CancelledError:
+            raise
+        except BaseException as e:
+            # Not only `Exception`: whatever ends this task must reach the consumer,
+            # which is waiting on `tasks`.
             await tasks.put(e)
         else:
             await tasks.put(None)
